@@ -71,6 +71,54 @@ class ClassInfo:
         return f"<Class {self.dotted}>"
 
 
+# signatures of the repository's own functions, filled by Index._normalise_calls, used to spell rule templates the same
+# way as the normalised source (sa/template.py)
+SIG_DOTTED = {}
+SIG_LAST = {}
+_EXTERNAL_ROOTS = {"numpy", "np", "scipy", "sp", "math", "collections", "copy", "json", "os", "struct", "itertools", "nx",
+                   "networkx", "shapely", "sympy", "PIL", "lxml", "re", "base64", "hashlib", "zlib", "io"}
+
+
+def move_keywords(call, params):
+    """in place: keywords that name the next positional parameter become positional; True when something moved"""
+    if any(isinstance(x, ast.Starred) for x in call.args) or any(k.arg is None for k in call.keywords):
+        return False
+    moved = False
+    while len(call.args) < len(params):
+        nxt = params[len(call.args)]
+        k = next((k for k in call.keywords if k.arg == nxt), None)
+        if k is None:
+            break
+        call.keywords.remove(k)
+        call.args.append(k.value)
+        moved = True
+    return moved
+
+
+def normalise_template_calls(tree):
+    """the same spelling for calls of repository functions inside a rule template (dotted or alias form)"""
+    for n in ast.walk(tree):
+        if not isinstance(n, ast.Call) or not n.keywords:
+            continue
+        f = n.func
+        parts = []
+        while isinstance(f, ast.Attribute):
+            parts.append(f.attr)
+            f = f.value
+        if not isinstance(f, ast.Name):
+            continue
+        parts.append(f.id)
+        parts.reverse()
+        if parts[0] in _EXTERNAL_ROOTS:
+            continue
+        sig = SIG_DOTTED.get(".".join(parts))
+        if sig is None:
+            sig = SIG_LAST.get(("method" if parts[0] in ("self", "P_self", "cls") and len(parts) == 2 else "function", parts[-1]))
+        if sig:
+            move_keywords(n, sig)
+    return tree
+
+
 class _Idioms(ast.NodeTransformer):
     """One spelling for numpy idioms that mean the same for every argument (applied to every module as it is loaded, so no
     rule sees the other spelling; positions are kept):
@@ -172,6 +220,9 @@ class Index:
         for m in self.modules.values():
             self._scan_module(m)
         self._link_classes()
+        self.calls_normalised = 0
+        if not os.environ.get("VERIF_NO_CALLNORM"):
+            self._normalise_calls()
 
     # ------------------------------------------------------------------
     def _abs_import(self, m, level, modname):
@@ -339,6 +390,113 @@ class Index:
                 return None
         return r
 
+    def _normalise_calls(self):
+        """One spelling for calls of this repository's own functions: a keyword argument that names the next positional
+        parameter is moved to that position (`f(points=p, matrix=m)`, `f(p, matrix=m)` and `f(p, m)` all become
+        `f(p, m)`); what cannot be moved stays a keyword.  Only calls whose callee is resolved to one definition are
+        touched (module-level functions by name or module alias, `self.method` with a single definition in the
+        hierarchy); callees with decorators that may change the signature are left alone.  The rewrite is in place, on
+        the parsed tree, before any rule looks at it."""
+        def callee_params(fi, bound):
+            n = fi.node
+            if any(_dec_name(d) not in ("staticmethod", "classmethod") for d in n.decorator_list):
+                return None
+            ps = [a.arg for a in n.args.posonlyargs + n.args.args]
+            if bound and fi.kind in ("method", "classmethod"):
+                ps = ps[1:]
+            elif bound and fi.kind != "staticmethod":
+                return None
+            return ps
+
+        def visit(node, module, cls, selfname, shadow):
+            if isinstance(node, (ast.FunctionDef, ast.AsyncFunctionDef, ast.Lambda)):
+                a = node.args
+                local = {x.arg for x in a.posonlyargs + a.args + a.kwonlyargs}
+                if a.vararg:
+                    local.add(a.vararg.arg)
+                if a.kwarg:
+                    local.add(a.kwarg.arg)
+                body = node.body if isinstance(node.body, list) else [node.body]
+                for st in body:
+                    for x in ast.walk(st):
+                        if isinstance(x, ast.Name) and isinstance(x.ctx, ast.Store):
+                            local.add(x.id)
+                        elif isinstance(x, (ast.Import, ast.ImportFrom)):
+                            local.update((al.asname or al.name).split(".")[0] for al in x.names)
+                if not isinstance(node, ast.Lambda) and getattr(node, "_verif_method", False):
+                    first = (a.posonlyargs + a.args)[0].arg if (a.posonlyargs + a.args) else None
+                    is_static = any(_dec_name(d) == "staticmethod" for d in node.decorator_list)
+                    selfname = first if (cls is not None and not is_static) else None
+                elif selfname in local:
+                    selfname = None  # a closure keeps the method's receiver unless it rebinds the name
+                shadow = shadow | local
+            elif isinstance(node, ast.ClassDef):
+                c = module.classes.get(node.name) if cls is None else None
+                for st in node.body:
+                    if isinstance(st, (ast.FunctionDef, ast.AsyncFunctionDef)):
+                        st._verif_method = True
+                    visit(st, module, c, None, shadow)
+                return
+            for ch in ast.iter_child_nodes(node):
+                visit(ch, module, cls, selfname, shadow)
+            if not isinstance(node, ast.Call) or not node.keywords:
+                return
+            if any(isinstance(x, ast.Starred) for x in node.args) or any(k.arg is None for k in node.keywords):
+                return
+            f = node.func
+            target, bound = None, False
+            if isinstance(f, ast.Name):
+                if f.id in shadow:
+                    return
+                r = self.resolve_name(module, f.id)
+                if isinstance(r, FuncInfo) and r.cls is None and r.parent is None:
+                    target = r
+            elif isinstance(f, ast.Attribute):
+                root = f
+                while isinstance(root, ast.Attribute):
+                    root = root.value
+                if not isinstance(root, ast.Name):
+                    return
+                if isinstance(f.value, ast.Name) and f.value.id == selfname and cls is not None:
+                    mem = self.member(cls, f.attr)
+                    r = mem.get("method") if mem else None
+                    if isinstance(r, FuncInfo) and not mem.get("getter") and not mem.get("attr"):
+                        others = [c for c in self.all_subclasses(cls) + list(cls.mro) if c is not mem["owner"] and
+                                  (f.attr in c.methods or f.attr in c.attrs or f.attr in c.getters)]
+                        if not others:
+                            target, bound = r, True
+                elif root.id not in shadow:
+                    r = self.resolve_expr(module, f)
+                    if isinstance(r, FuncInfo) and r.cls is None and r.parent is None:
+                        target = r
+            if target is None:
+                return
+            ps = callee_params(target, bound)
+            if ps is None:
+                return
+            if move_keywords(node, ps):
+                self.calls_normalised += 1
+
+        # signature tables for templates: by dotted name, and by bare name where every definition of that name agrees
+        SIG_DOTTED.clear()
+        SIG_LAST.clear()
+        by_last = {}
+        for fi in self.all_functions:
+            if fi.parent is not None:
+                continue
+            ps = callee_params(fi, fi.cls is not None)
+            if fi.cls is None:
+                if ps is not None:
+                    SIG_DOTTED[f"{fi.module.name}.{fi.name}"] = ps
+                by_last.setdefault(("function", fi.name), []).append(ps)
+            elif fi.kind in ("method", "classmethod", "staticmethod"):
+                by_last.setdefault(("method", fi.name), []).append(ps)
+        for k, sigs in by_last.items():
+            if all(x is not None and x == sigs[0] for x in sigs):
+                SIG_LAST[k] = sigs[0]
+        for m in self.modules.values():
+            visit(m.tree, m, None, None, frozenset())
+
     def _link_classes(self):
         for m in self.modules.values():
             for c in m.classes.values():
@@ -439,6 +597,78 @@ class Index:
         if f is None:
             raise AnalysisError(f"anchor function vanished: {spec}")
         return f
+
+    def call_arg(self, call, name, dotted):
+        """the argument expression bound to parameter `name` in a call of the repository function `dotted`
+        (positional or keyword), or None"""
+        for k in call.keywords:
+            if k.arg == name:
+                return k.value
+        sig = SIG_DOTTED.get(dotted) or []
+        if name in sig and sig.index(name) < len(call.args) and not any(isinstance(a, ast.Starred) for a in call.args):
+            return call.args[sig.index(name)]
+        return None
+
+    def call_args(self, call, dotted):
+        """{parameter: argument expression} for a call of the repository function `dotted` (positional and keyword)"""
+        out = {k.arg: k.value for k in call.keywords if k.arg}
+        sig = SIG_DOTTED.get(dotted) or []
+        if not any(isinstance(a, ast.Starred) for a in call.args):
+            for p, a in zip(sig, call.args):
+                out.setdefault(p, a)
+        return out
+
+    def record_fields(self, dotted):
+        """[(field, default expr or None)] in declaration order when `dotted` names a typing.NamedTuple class or a
+        collections.namedtuple of this repository, else None.  A record built and projected in one expression
+        (`K(a=x, b=y).a`) is the same value as `x`; sa/provenance.py and sa/dag.py use this to see through it."""
+        modname, _, name = dotted.rpartition(".")
+        m = self.modules.get(modname)
+        if m is None:
+            return None
+        c = m.classes.get(name)
+        if c is not None:
+            if not any(str(b).split(".")[-1] == "NamedTuple" for b in c.ext_bases):
+                return None
+            out = []
+            for st in c.node.body:
+                if isinstance(st, ast.AnnAssign) and isinstance(st.target, ast.Name):
+                    out.append((st.target.id, st.value))
+                elif isinstance(st, (ast.FunctionDef, ast.Assign)):
+                    return None  # methods / class attributes: not a plain record
+            return out or None
+        cs = m.constants.get(name) if hasattr(m, "constants") else None
+        if cs and len(cs) == 1 and isinstance(cs[0].value, ast.Call) and ast.unparse(cs[0].value.func).split(".")[-1] == "namedtuple":
+            a = cs[0].value.args
+            if len(a) >= 2 and not cs[0].value.keywords:
+                try:
+                    spec = ast.literal_eval(a[1])
+                except (ValueError, SyntaxError):
+                    return None
+                names = spec.replace(",", " ").split() if isinstance(spec, str) else list(spec)
+                return [(n, None) for n in names]
+        return None
+
+    def record_project(self, call, attr_or_index):
+        """the argument expression that `K(...).attr` / `K(...)[i]` denotes, or None (K a record of this repository,
+        callee already resolved to its dotted name)"""
+        if not isinstance(call, ast.Call) or not isinstance(call.func, (ast.Name, ast.Attribute)):
+            return None
+        fields = self.record_fields(ast.unparse(call.func))
+        if not fields or any(isinstance(a, ast.Starred) for a in call.args) or any(k.arg is None for k in call.keywords):
+            return None
+        names = [n for n, _ in fields]
+        bound = dict(zip(names, call.args))
+        for k in call.keywords:
+            bound[k.arg] = k.value
+        for n, d in fields:
+            if n not in bound and d is not None:
+                bound[n] = d
+        if isinstance(attr_or_index, int):
+            if not -len(names) <= attr_or_index < len(names):
+                return None
+            attr_or_index = names[attr_or_index]
+        return bound.get(attr_or_index)
 
     def func_by_role(self, spec, pred, what):
         """the function `spec` names - or, when a private function was renamed, the one function of the same module
